@@ -125,6 +125,26 @@ func evalC04(c c04Case, rec *hx.Rec) error {
 			rec.Label("verdict:reject")
 		}
 	}
+	// the same point again on the same configuration: prove a second time, verify both proofs once more
+	var proof2 ipa.IPAProof
+	if e := hx.Try(func() {
+		proof2, perr = ipa.CreateIPAProof(common.NewTranscript(c.Label), cfg, comm, f, hx.FrFromBig(z))
+	}); e != nil || perr != nil {
+		return fmt.Errorf("second CreateIPAProof at %s: %v %v", c.Point, e, perr)
+	}
+	for i, pr := range []ipa.IPAProof{proof2, proof} {
+		var ok bool
+		var verr error
+		if e := hx.Try(func() {
+			ok, verr = ipa.CheckIPAProof(common.NewTranscript(c.Label), cfg, comm, pr, hx.FrFromBig(z), hx.FrFromBig(want))
+		}); e != nil {
+			return e
+		}
+		rec.Eval(1)
+		if !ok || verr != nil {
+			return fmt.Errorf("after proving twice at point %s, proof #%d for result p(point) is rejected (%v, %v): results depend on earlier calls", c.Point, 2-i, ok, verr)
+		}
+	}
 	boundary := z.Cmp(big.NewInt(254)) >= 0 && z.Cmp(big.NewInt(257)) <= 0
 	switch {
 	case boundary:
